@@ -496,7 +496,7 @@ def run(chk, tier, seed):
             rule="seeded random schedules of add / run / server message (valid, wrong hash, duplicate, stale generation, unknown id, error status, "
                  "error PDU, bad MAC, garbage) / peer close+reset / poll+connect outcomes / clock ticks executed by the real async service over "
                  "the real TCP client on scripted sockets; every schedule is one distinct trace validated by TLC")
-    chk.assumptions += ["the HTTP (curl multi) async client runs on a scripted curl multi interface: exchanges complete when the script says so (body of 0..2 PDUs, junk, transfer error, HTTP status); failures of curl_multi_add_handle / curl_multi_perform themselves are not scripted; pushed configurations are not yet modelled",
+    chk.assumptions += ["the HTTP (curl multi) async client runs on a scripted curl multi interface: exchanges complete when the script says so (body of 0..2 PDUs, junk, transfer error, HTTP status); a failing curl_multi_add_handle is scripted (MADDFAIL), a failing curl_multi_perform is not; configuration requests are submitted over the TCP client only (configuration PDUs arrive over both)",
                         "byte-level chunking of the stream is C14's business: here whole PDUs are delivered"]
 
 
